@@ -206,8 +206,22 @@ func (turnComp) Gen(r *rand.Rand, tier string, n int) []*wire.Case {
 	for i := 0; i < n; i++ {
 		ops := []*wire.Rec{spd(1, pick(r, 90.0, 100, 134, 97.3)), spd(2, pick(r, 90.0, 100, 134, 133.7)), spd(3, pick(r, 90.0, 100, 134, 61.9)), spd(4, 111), spd(5, 100), add(1, 2, 3)}
 		l := 4 + r.Intn(30)
+		present := map[int]bool{1: true, 2: true, 3: true}
 		for j := 0; j < l; j++ {
-			ops = append(ops, randOp())
+			op := randOp()
+			// added units are new (the property's domain): a unit is in the order at most once
+			if op.Name == "add" {
+				id := op.Ints("ids")[0]
+				if present[id] {
+					op = o("reset")
+				} else {
+					present[id] = true
+				}
+			}
+			if op.Name == "remove" {
+				delete(present, op.Int("id"))
+			}
+			ops = append(ops, op)
 		}
 		mk(fmt.Sprintf("r%d", i), ops...)
 	}
